@@ -10,6 +10,39 @@ pub mod world;
 
 pub use world::WouldBlockForever;
 
+/// Heartbeats for the harness' hang detection: "a run hangs" must mean "no progress", not "took
+/// long on a loaded machine". Every access to the simulated kernel (and every call on a scripted
+/// stream) bumps the counter of the executing thread's slot; a watchdog declares a hang only when
+/// a slot's counter has not moved for the whole grace period.
+pub mod heartbeat {
+    use std::cell::Cell;
+    use std::sync::atomic::{AtomicU64, Ordering};
+
+    pub const SLOTS: usize = 256;
+    #[allow(clippy::declare_interior_mutable_const)]
+    const ZERO: AtomicU64 = AtomicU64::new(0);
+    pub static BEATS: [AtomicU64; SLOTS] = [ZERO; SLOTS];
+
+    thread_local! {
+        static SLOT: Cell<usize> = const { Cell::new(SLOTS - 1) };
+    }
+
+    /// worker threads take slots 0.., everything else shares the last one
+    pub fn set_slot(k: usize) {
+        SLOT.with(|s| s.set(k.min(SLOTS - 2)));
+    }
+    pub fn slot() -> usize {
+        SLOT.with(|s| s.get())
+    }
+    #[inline]
+    pub fn beat() {
+        BEATS[slot()].fetch_add(1, Ordering::Relaxed);
+    }
+    pub fn read(k: usize) -> u64 {
+        BEATS[k.min(SLOTS - 1)].load(Ordering::Relaxed)
+    }
+}
+
 pub(crate) fn block(syscall: &'static str, fd: i32) -> ! {
     std::panic::panic_any(WouldBlockForever { syscall, fd })
 }
